@@ -7,6 +7,7 @@ import (
 	"encoding/json"
 	"fmt"
 	"os"
+	"os/exec"
 	"sort"
 	"strconv"
 	"strings"
@@ -39,6 +40,10 @@ type Prop struct {
 	PanicIsViolation bool
 	// HangIsViolation: "hang"/"budget" verdicts count as violations (bounded liveness).
 	HangIsViolation bool
+	// CrashIsViolation: the exploration runs in a supervised child process; a child that dies
+	// (fatal runtime error, stack overflow, out of memory under ulimit -v, real-time dead loop)
+	// is a violation of this property, reported with the run seed taken from the journal (C04).
+	CrashIsViolation bool
 	Components      map[string]string // component -> "real" | "stub: ..."
 	Assumptions     []string
 }
@@ -233,7 +238,13 @@ func Main(t *testing.T, p Prop) {
 			wr.InfraErrors = append(wr.InfraErrors, "cannot load replay file")
 			return
 		}
-		o := runOne(simrt.NewReplayTape(rp.RunSeed, rp.Tape))
+		var rt *simrt.Tape
+		if rp.Tape == nil {
+			rt = simrt.NewTape(rp.RunSeed) // crash replays carry only the run seed
+		} else {
+			rt = simrt.NewReplayTape(rp.RunSeed, rp.Tape)
+		}
+		o := runOne(rt)
 		got := ""
 		msg := ""
 		for _, v := range o.Violations {
@@ -263,6 +274,16 @@ func Main(t *testing.T, p Prop) {
 			fmt.Println("REPLAY-NOT-REPRODUCED")
 		}
 		return
+	case "replayseed":
+		// run exactly one generated run (used by the supervisor to attribute a crash)
+		rs := envU64("VERIF_REPLAY_SEED", 0)
+		o := runOne(simrt.NewTape(rs))
+		if len(o.Violations) > 0 {
+			v := o.Violations[0]
+			wr.Violation = &Replay{Property: p.ID, RunSeed: rs, Oracle: v.Oracle, Msg: v.Msg, LogHash: o.Res.LogHash, LogTail: o.Res.LogTail, Sample: o.Sample}
+		}
+		wr.Runs = 1
+		return
 	case "selftest":
 		n := envInt("VERIF_RUNS", 30)
 		st := &SelfTest{}
@@ -284,19 +305,44 @@ func Main(t *testing.T, p Prop) {
 		return
 	}
 	// explore
+	if p.CrashIsViolation && os.Getenv("VERIF_CHILD") == "" {
+		supervise(p, wr, start)
+		return
+	}
 	known := loadKnown(p.ID)
+	journal := os.Getenv("VERIF_JOURNAL")
+	startIdx := envInt("VERIF_START", 0)
+	runLimit := time.Duration(envInt("VERIF_RUN_TIMEOUT_S", 0)) * time.Second
+	var wd *time.Timer
+	if runLimit > 0 {
+		wd = time.AfterFunc(runLimit, func() {})
+		wd.Stop()
+	}
 	budget := time.Duration(envInt("VERIF_BUDGET_S", 20)) * time.Second
 	maxRuns := envInt("VERIF_RUNS", 1<<30)
 	distinct := map[string]bool{}
 	nontriv := map[string]bool{}
-	for i := 0; i < maxRuns && time.Since(start) < budget; i++ {
+	for i := startIdx; i < maxRuns && time.Since(start) < budget; i++ {
 		idx := i*nworkers + worker
 		rs := simrt.Mix(seed, uint64(idx))
+		if journal != "" {
+			os.WriteFile(journal, []byte(fmt.Sprintf("%d %d %d\n", i, idx, rs)), 0644)
+		}
+		if wd != nil {
+			wd.Stop()
+			wd = time.AfterFunc(runLimit, func() {
+				fmt.Fprintf(os.Stderr, "\nWATCHDOG: run %d did not finish within %v of real time (dead loop or real blocking)\n", idx, runLimit)
+				os.Exit(3)
+			})
+		}
 		if len(wr.FirstSeeds) < 3 {
 			wr.FirstSeeds = append(wr.FirstSeeds, rs)
 		}
 		tape := simrt.NewTape(rs)
 		o := runOne(tape)
+		if wd != nil {
+			wd.Stop()
+		}
 		wr.Runs++
 		if o.Res != nil {
 			wr.Steps += o.Res.Steps
@@ -528,4 +574,170 @@ func RunDir() (string, func()) {
 		panic(err)
 	}
 	return d, func() { os.RemoveAll(d) }
+}
+
+
+// supervise runs the exploration in child processes so that a fatal crash of
+// repository code (unrecoverable in Go) is observed, attributed to a run seed
+// through the journal, and does not end the exploration when it is a listed
+// known finding.
+func supervise(p Prop, wr *WorkerResult, start time.Time) {
+	budget := time.Duration(envInt("VERIF_BUDGET_S", 20)) * time.Second
+	known := loadKnown(p.ID)
+	dir := os.Getenv("TMPDIR")
+	if dir == "" {
+		dir = "/dev/shm"
+	}
+	tag := fmt.Sprintf("%s/sup-%d-%d", dir, os.Getpid(), wr.Worker)
+	journal, childOut, childErr := tag+".journal", tag+".out", tag+".err"
+	defer func() { os.Remove(journal); os.Remove(childOut); os.Remove(childErr) }()
+	next := 0
+	nontriv := map[string]bool{}
+	for time.Since(start) < budget {
+		os.Remove(childOut)
+		os.Remove(journal)
+		ef, _ := os.Create(childErr)
+		left := int((budget - time.Since(start)).Seconds())
+		if left < 1 {
+			left = 1
+		}
+		cmd := exec.Command(os.Args[0], os.Args[1:]...)
+		cmd.Env = append(os.Environ(), "VERIF_CHILD=1", "VERIF_OUT="+childOut, "VERIF_JOURNAL="+journal,
+			fmt.Sprintf("VERIF_START=%d", next), fmt.Sprintf("VERIF_BUDGET_S=%d", left))
+		cmd.Stdout, cmd.Stderr = ef, ef
+		err := cmd.Run()
+		ef.Close()
+		var cr WorkerResult
+		if b, rerr := os.ReadFile(childOut); rerr == nil && json.Unmarshal(b, &cr) == nil {
+			wr.Runs += cr.Runs
+			wr.Steps += cr.Steps
+			wr.SimNs += cr.SimNs
+			wr.DistinctAll += cr.DistinctAll
+			for k, v := range cr.Counters {
+				wr.Counters[k] += v
+			}
+			for k, v := range cr.Verdicts {
+				wr.Verdicts[k] += v
+			}
+			for k, v := range cr.KnownHits {
+				wr.KnownHits[k] += v
+			}
+			for _, x := range cr.Nontrivial {
+				nontriv[x] = true
+			}
+			if len(wr.Samples) < 2 {
+				wr.Samples = append(wr.Samples, cr.Samples...)
+			}
+			if len(wr.FirstSeeds) == 0 {
+				wr.FirstSeeds = cr.FirstSeeds
+			}
+			wr.InfraErrors = append(wr.InfraErrors, cr.InfraErrors...)
+			if cr.Violation != nil {
+				wr.Violation, wr.ReplayPath = cr.Violation, cr.ReplayPath
+				break
+			}
+			if err == nil {
+				break // child used up the budget
+			}
+		}
+		if err == nil {
+			break
+		}
+		// the child died: which run?
+		var i, idx int
+		var rs uint64
+		jb, _ := os.ReadFile(journal)
+		if n, _ := fmt.Sscanf(string(jb), "%d %d %d", &i, &idx, &rs); n != 3 {
+			wr.InfraErrors = append(wr.InfraErrors, "child died before journaling a run: "+err.Error())
+			break
+		}
+		eb, _ := os.ReadFile(childErr)
+		msg, oracle := crashMessage(string(eb), err)
+		wr.Runs++
+		wr.Counters["child_crashes"]++
+		// A goroutine left over from the previous run may have caused the crash: attribute it to
+		// the most recent run that dies again when executed alone.
+		for back := 0; back <= 2 && i-back >= 0; back++ {
+			cidx := (i-back)*envInt("VERIF_WORKERS", 1) + wr.Worker
+			crs := simrt.Mix(wr.Seed, uint64(cidx))
+			c2 := exec.Command(os.Args[0], os.Args[1:]...)
+			c2.Env = append(os.Environ(), "VERIF_CHILD=1", "VERIF_MODE=replayseed", fmt.Sprintf("VERIF_REPLAY_SEED=%d", crs), "VERIF_OUT="+childOut+".a")
+			ob, cerr := c2.CombinedOutput()
+			os.Remove(childOut + ".a")
+			if cerr != nil {
+				idx, rs = cidx, crs
+				msg, oracle = crashMessage(string(ob), cerr)
+				eb = ob
+				break
+			}
+		}
+		isKnown := false
+		for _, k := range known {
+			if k.Signature == oracle || (strings.HasPrefix(k.Signature, oracle+":") && strings.Contains(msg, strings.TrimPrefix(k.Signature, oracle+":"))) {
+				wr.KnownHits[k.Signature]++
+				isKnown = true
+			}
+		}
+		if isKnown {
+			next = i + 1
+			continue
+		}
+		rp := &Replay{Property: p.ID, Seed: wr.Seed, RunIndex: idx, RunSeed: rs, Oracle: oracle, Msg: msg, LogTail: lastLines(string(eb), 40)}
+		wr.Violation = rp
+		if rdir := os.Getenv("VERIF_REPLAY_DIR"); rdir != "" {
+			path := fmt.Sprintf("%s/%s-%d-%d.json", rdir, p.ID, wr.Seed, idx)
+			b, _ := json.MarshalIndent(rp, "", " ")
+			if os.WriteFile(path, b, 0644) == nil {
+				wr.ReplayPath = path
+			}
+		}
+		break
+	}
+	for k := range nontriv {
+		wr.Nontrivial = append(wr.Nontrivial, k)
+	}
+	sort.Strings(wr.Nontrivial)
+}
+
+// crashMessage extracts the reason a child died from its stderr.
+func crashMessage(stderr string, err error) (msg, oracle string) {
+	oracle = "no-crash"
+	for _, l := range strings.Split(stderr, "\n") {
+		switch {
+		case strings.HasPrefix(l, "WATCHDOG:"):
+			return l, "no-dead-loop"
+		case strings.HasPrefix(l, "fatal error:"), strings.HasPrefix(l, "panic:"), strings.HasPrefix(l, "runtime: goroutine stack exceeds"):
+			// add the first repository frame for a usable signature
+			return l + " " + firstRepoFrame(stderr), oracle
+		}
+	}
+	return "child process ended: " + err.Error(), oracle
+}
+
+func firstRepoFrame(stderr string) string {
+	for _, l := range strings.Split(stderr, "\n") {
+		if strings.HasPrefix(l, "github.com/containerd/stargz-snapshotter") && !strings.Contains(l, "zzverif") {
+			if i := strings.LastIndex(l, "("); i > 0 {
+				return "at " + l[:i]
+			}
+			return "at " + l
+		}
+	}
+	return ""
+}
+
+func lastLines(s string, n int) []string {
+	ls := strings.Split(strings.TrimRight(s, "\n"), "\n")
+	var out []string
+	for _, l := range ls {
+		if len(l) > 300 {
+			l = l[:300]
+		}
+		out = append(out, l)
+	}
+	if len(out) > n {
+		// keep the head (the fatal message) and some of the first frames
+		out = out[:n]
+	}
+	return out
 }
